@@ -553,3 +553,170 @@ func jsonEqual(a, b interface{}) bool {
 		return reflect.DeepEqual(a, b)
 	}
 }
+
+// ---------------------------------------------------------------------------------------------
+// snapshots persisted at ANY point: X1 scenarios in which saves race with a job's progress; every
+// distinct snapshot that any explored execution wrote is restarted from afterwards.
+
+func persistedKey(d *store.PersistedData) string {
+	jobs := append([]store.PersistedJob(nil), d.Jobs...)
+	sort.Slice(jobs, func(i, j int) bool { return jobIndex(jobs[i].ID) < jobIndex(jobs[j].ID) })
+	var sb strings.Builder
+	for _, j := range jobs {
+		sb.WriteString(persistedString(j))
+		sb.WriteString("|")
+	}
+	return sb.String()
+}
+
+// restartFromSnapshot starts a runner from the snapshot (through the real JSON store) and checks
+// the part of the statement that does not need a report from before the save.
+func restartFromSnapshot(snap *store.PersistedData, defs *definitionPipelinesDef) []Violation {
+	var vs []Violation
+	add := func(norm, msg string) {
+		vs = append(vs, Violation{Property: "C10", Rule: "restart-any-point", Norm: norm, Msg: msg + " (snapshot: " + persistedKey(snap) + ")"})
+	}
+	dir, err := os.MkdirTemp("", "verif-c10s-")
+	if err != nil {
+		panic(err)
+	}
+	defer os.RemoveAll(dir)
+	vsched.FreeTimeDivisor = 1000
+	defer func() {
+		if !vsched.WaitFree(10 * time.Second) {
+			panic(InfraError{"goroutines of the restarted runner did not stop"})
+		}
+		vsched.FreeTimeDivisor = 1
+	}()
+	ds, _ := store.NewJSONDataStore(dir)
+	if err := ds.Save(snap); err != nil {
+		panic(err)
+	}
+	ctx, cancel := context.WithCancel(context.Background())
+	defer cancel()
+	ds2, _ := store.NewJSONDataStore(dir)
+	r2, err := prunner.NewPipelineRunner(ctx, defs, func(j *prunner.PipelineJob) taskctl.Runner { return &nullRunner{} }, ds2, nopOutputStore{})
+	if err != nil {
+		add("restart-fails", "a runner cannot be started from the snapshot: "+err.Error())
+		return vs
+	}
+	b := reportOf(r2)
+	want := map[string]bool{}
+	for _, j := range snap.Jobs {
+		want[j.ID.String()] = true
+	}
+	if len(b.Dups) > 0 || len(b.Jobs) != len(want) {
+		add("job-set-differs", fmt.Sprintf("the snapshot has %d jobs, after the restart %d are reported (duplicates: %v)", len(want), len(b.Jobs), b.Dups))
+	}
+	for id, jb := range b.Jobs {
+		comp, _ := jb["completed"].(bool)
+		canc, _ := jb["canceled"].(bool)
+		if !comp && !canc {
+			add("non-terminal-after-restart", fmt.Sprintf("job %s is neither completed nor canceled after the restart: %v", shortID(id), jb))
+		}
+		if !want[id] {
+			add("job-set-differs", "job "+shortID(id)+" is reported after the restart but is not in the snapshot")
+		}
+	}
+	for p := range defs.Pipelines {
+		f, ok := b.Pipelines[p]
+		if !ok || !f[0] || f[1] {
+			add("ghost-capacity-after-restart", fmt.Sprintf("after the restart pipeline %s is listed schedulable=%v running=%v", p, f[0], f[1]))
+		}
+		nj, err := r2.ScheduleAsync(p, prunner.ScheduleOpts{})
+		if err != nil {
+			add("not-schedulable-after-restart", fmt.Sprintf("after the restart a schedule request for pipeline %s fails: %v", p, err))
+		} else {
+			started := false
+			for i := 0; i < 2000 && !started; i++ {
+				_ = r2.ReadJob(nj.ID, func(j *prunner.PipelineJob) { started = j.Start != nil })
+				if !started {
+					time.Sleep(time.Millisecond)
+				}
+			}
+			if !started {
+				add("ghost-capacity-after-restart", fmt.Sprintf("after the restart a new job of pipeline %s is accepted but never starts (a ghost holds the slot)", p))
+			}
+		}
+	}
+	for i := 0; i < 2000; i++ {
+		busy := false
+		r2.IterateJobs(func(j *prunner.PipelineJob) {
+			if !j.Completed && !j.Canceled {
+				busy = true
+			}
+		})
+		if !busy {
+			break
+		}
+		time.Sleep(time.Millisecond)
+	}
+	cancel()
+	return vs
+}
+
+func c10Scenarios(tier string) []*Scenario {
+	var scs []*Scenario
+	for _, v := range []struct {
+		n   string
+		cfg PipeCfg
+		pre []XEvent
+	}{
+		{"chain", PipeCfg{Conc: 1, QL: -1, Graph: graphChain}, nil},
+		{"one+waiting", PipeCfg{Conc: 1, QL: -1, Graph: graphOne}, []XEvent{{Kind: "S", P: "p"}}},
+		{"par-failfast", PipeCfg{Conc: 1, QL: -1, Graph: graphPar}, nil},
+	} {
+		v := v
+		type snapInfo struct {
+			snap    *store.PersistedData
+			choices []int
+		}
+		snaps := map[string]snapInfo{}
+		defs := defsOf(v.cfg)
+		scs = append(scs, &Scenario{
+			Name:   "save-at-any-point/" + v.n,
+			Desc:   "one client schedules a job, another saves twice at arbitrary points of its life; every distinct snapshot written in any explored execution is restarted from",
+			Opts:   func() WorldOpts { return WorldOpts{Defs: defs, WithStore: true} },
+			Prefix: v.pre,
+			Setup: func(w *World) {
+				w.Accepted = len(v.pre)
+				w.SpawnDriver(Op{Kind: "S", Pipeline: "p"})
+				if v.n == "par-failfast" {
+					w.SpawnDriver(Op{Kind: "Save"})
+				} else {
+					w.SpawnDriver(Op{Kind: "Save"}, Op{Kind: "Save"})
+				}
+			},
+			Check: func(w *World, x *Exec) []Violation {
+				for _, sn := range w.Store.saves {
+					k := persistedKey(sn)
+					if _, ok := snaps[k]; !ok {
+						snaps[k] = snapInfo{sn, append([]int(nil), x.Choices...)}
+					}
+				}
+				return nil
+			},
+			PostRun: func() []FoundViolation {
+				var res []FoundViolation
+				keys := make([]string, 0, len(snaps))
+				for k := range snaps {
+					keys = append(keys, k)
+				}
+				sort.Strings(keys)
+				seen := map[string]bool{}
+				for _, k := range keys {
+					for _, viol := range restartFromSnapshot(snaps[k].snap, defs[0]) {
+						if seen[viol.Norm] {
+							continue
+						}
+						seen[viol.Norm] = true
+						res = append(res, FoundViolation{Violation: viol, Scenario: "save-at-any-point/" + v.n, Choices: snaps[k].choices})
+					}
+				}
+				return res
+			},
+			FailOK: false, Bound: intp(1),
+		})
+	}
+	return scs
+}
